@@ -11,6 +11,10 @@ import sys
 import time
 
 
+import os
+FIXED_POINT = os.environ.get("VERIF_SCALE_FIXED_POINT") == "1"
+
+
 def family(name, n):
     """(elements, bonds) of the size-n member."""
     C = "C"
@@ -68,6 +72,9 @@ def pipeline(g):
     s = serialize_molecule(canonicalize_molecule(g))
     g2 = graph_from_tucan(s)
     assert g2.number_of_nodes() == g.number_of_nodes() and g2.number_of_edges() == g.number_of_edges()
+    if FIXED_POINT:
+        s2 = serialize_molecule(canonicalize_molecule(g2))
+        assert s2 == s, "the parsed graph does not reproduce the string"
     return s
 
 
